@@ -232,11 +232,13 @@ def check_sweep(ctx, sm, exc, num=4):
         if key and it in (f"list({out}.keys())", f"list({out})", f"tuple({out}.keys())", f"tuple({out})"):
             pipe_t = f"{out}[{key}]"
         elif key and it == f"list({out}.values())":
-            pipe_t = key
+            pipe_t, key = key, None
+        elif it == f"list({out}.items())" and isinstance(sl.target, ast.Tuple) and len(sl.target.elts) == 2 and all(isinstance(x, ast.Name) for x in sl.target.elts):
+            key, pipe_t = sl.target.elts[0].id, sl.target.elts[1].id
         okrecv = pipe_t is not None and recv == f"{pipe_t}.runtime_status()" and len(c.args) == 1 and norm.is_name(c.args[0], sm.tick)
         fs = g.facts_at(c)
         # the guard: is_pipeline_successful() of that pipeline (in raw or substituted spelling)
-        succ = any(a[0] == "truth" and a[2] is True and a[1].endswith(".runtime_status().is_pipeline_successful()") and
+        succ = any(a[0] == "truth" and a[2] is True and a[1].endswith("is_pipeline_successful()") and
                    norm.U(norm.subst(ast.parse(a[1], mode="eval").body, le)) == f"{pipe_t}.runtime_status().is_pipeline_successful()" for a in fs)
         # latency append and delete, control-equivalent with record_finish
         apps = [a for a in ast.walk(sl) if isinstance(a, ast.Call) and isinstance(a.func, ast.Attribute) and a.func.attr == "append" and isinstance(a.func.value, ast.Subscript)]
@@ -252,7 +254,7 @@ def check_sweep(ctx, sm, exc, num=4):
         pops = [x for x in ast.walk(sl) if isinstance(x, ast.Call) and isinstance(x.func, ast.Attribute) and x.func.attr == "pop" and norm.U(x.func.value) == out]
         okdel = False
         for n in dels:
-            if norm.U(norm.subst(n.targets[0].slice, le)) in (key, f"{pipe_t}.pipeline_id") and g.control_equivalent(poolmod.stmt_of(c), n, sl):
+            if norm.U(norm.subst(n.targets[0].slice, le)) in ([key] if key else []) + [f"{pipe_t}.pipeline_id"] and g.control_equivalent(poolmod.stmt_of(c), n, sl):
                 okdel = True
         for x in pops:
             if g.control_equivalent(poolmod.stmt_of(c), poolmod.stmt_of(x), sl):
@@ -446,7 +448,16 @@ def check_executor_aggregates(ctx, num=7):
                     d = f"loop {stmt_text(lp)}; update {stmt_text(ups[0])}"
         elif len(rs) == 1 and isinstance(rs[0].value, ast.Call) and norm.call_name(rs[0].value) == "sum" and op == "sum":
             a0 = rs[0].value.args[0]
-            ok = isinstance(a0, (ast.GeneratorExp, ast.ListComp)) and norm.U(a0.generators[0].iter) == "self.pools" and norm.U(a0.elt) == f"{a0.generators[0].target.id}.{attr}"
+            if isinstance(a0, (ast.GeneratorExp, ast.ListComp)) and len(a0.generators) == 1 and not a0.generators[0].ifs and isinstance(a0.generators[0].target, ast.Name):
+                iv = a0.generators[0].target.id
+                src = norm.U(a0.generators[0].iter)
+                ok = (src == "self.pools" and norm.U(a0.elt) == f"{iv}.{attr}") or (src in ("range(self.num_pools)", "range(len(self.pools))") and norm.U(a0.elt) == f"self.pools[{iv}].{attr}")
+        elif len(rs) == 1 and isinstance(rs[0].value, ast.ListComp) and op == "concat" and len(rs[0].value.generators) == 2:
+            g1, g2 = rs[0].value.generators
+            if not g1.ifs and not g2.ifs and isinstance(g1.target, ast.Name) and isinstance(g2.target, ast.Name) and norm.is_name(rs[0].value.elt, g2.target.id):
+                iv = g1.target.id
+                src = norm.U(g1.iter)
+                ok = (src == "self.pools" and norm.U(g2.iter) == f"{iv}.{attr}") or (src in ("range(self.num_pools)", "range(len(self.pools))") and norm.U(g2.iter) == f"self.pools[{iv}].{attr}")
         ctx.ob(num, "K6", f"Executor.{meth}() aggregates {attr} over all pools", ok, f, rs[0] if rs else f.node, detail=d)
     # tick times recorded once per ending container
     pa = poolmod.pool_analysis(P)
